@@ -17,6 +17,13 @@ NA = {
  "C20": "drawn artist data are a pure function of trajectory, mode and settings (DESIGN §5)",
 }
 CHECKS = {
+ "C18": dict(
+   engine="E1-simfs-vproc",
+   level=("exploration",
+     "Seeded histories of 5-40 evo_config / -c operations, each executed as its own virtual process (the real import-time initialise/upgrade code runs before every operation) on a simulated disk, compared after every operation with a dict model transcribed from the property text: key set, types (bool stays bool, list stays list, numeric tokens become numbers), only named keys change, subset reset, upgrade adds missing keys only, union merge hard/soft, locked SETTINGS, -c priority and per-run override, and generate/-c equivalence destination by destination for argument lists drawn from the real parsers' typed options (ints, negative numbers, multi-value). Sampling, not proof.",
+     "4.2"),
+   note="Trusted: the dict model (transcribed rules), SimFS, argparse. Documented grammar only: options before key/value groups, values never spell a key, valid pygments_style/console_logging_format, no nan/inf tokens, string-typed CLI options never get numeric-looking values.",
+   technique="deterministic simulation: histories of evo_config processes on an in-memory disk vs. an executable reference model (dirty restart = process exit)"),
  "C19": dict(
    engine="E1-simfs-vproc",
    level=("fault_enumeration",
